@@ -241,6 +241,50 @@ def _sample(case, ctx, g):
     ctx.cell(_cellkey(case))
 
 
+def _observables(ctx, q, m_ref, C_ref, tag, **kw):
+    """every read-out of a DERIVED distribution (indexed / expanded / unsqueezed / shifted), not only mean and covariance:
+    scale_tril, precision_matrix, entropy and log_prob on both paths must describe N(m_ref, C_ref)"""
+    import math
+
+    import torch
+
+    from gpytorch import settings as S
+    from vf import util
+
+    ev = torch.linalg.eigvalsh(0.5 * (C_ref + C_ref.transpose(-1, -2)))
+    if float(ev.min()) < 1e-6 * max(1.0, float(ev.max())):
+        return  # singular (repeated components): no density / factor to speak of
+    n = C_ref.shape[-1]
+    try:
+        L = q.scale_tril
+        ctx.close("derived_scale_tril", L @ L.transpose(-1, -2), C_ref.expand(L.shape), (1e-7, 1e-7), cls=tag + ":scale_tril", **kw)
+        ctx.close("derived_precision", q.precision_matrix, torch.linalg.inv(C_ref).expand(L.shape), (1e-6, 1e-6), cls=tag + ":precision", **kw)
+        ent = 0.5 * n * (1 + math.log(2 * math.pi)) + 0.5 * torch.logdet(C_ref)
+        ctx.close("derived_entropy", q.entropy(), ent.expand(q.batch_shape), (1e-7, 1e-7), cls=tag + ":entropy", **kw)
+        v = m_ref + 0.3 * torch.ones_like(m_ref)
+        ref_lp = util.mvn_logpdf(v, m_ref, C_ref.expand(*m_ref.shape[:-1], n, n))
+        for fast in (True, False):
+            with S.fast_computations(log_prob=fast):
+                ctx.close("derived_log_prob", q.log_prob(v), ref_lp, (1e-7, 1e-7), cls=tag + (":log_prob_fast" if fast else ":log_prob_chol"), **kw)
+    except Exception as e:
+        ctx.fail("derived_observables_raise", f"{tag}: {type(e).__name__}: {str(e)[:140]}", "raise", exc=type(e).__name__, **kw)
+
+
+def _prime(d, how):
+    """make the parent hold cached factorisations before it is derived from (the order real code meets)"""
+    import torch
+
+    from gpytorch import settings as S
+
+    if how == "scale_tril":
+        d.scale_tril
+    elif how == "log_prob_chol":
+        with S.fast_computations(log_prob=False):
+            d.log_prob(d.mean + 0.1)
+    elif how == "rsample":
+        d.rsample(torch.Size([2]))
+
+
 def _arith(case, ctx, g):
     import torch
 
@@ -263,6 +307,13 @@ def _arith(case, ctx, g):
     ctx.expect("shapes", tuple(d.batch_shape) == tuple(db) and tuple(d.event_shape) == (N,), f"batch {tuple(d.batch_shape)} event {tuple(d.event_shape)}")
     c = float(util.randn(g, 1)) * 2 + 0.1
 
+    prime = ["none", "scale_tril", "log_prob_chol", "rsample"][case["seed"] % 4]
+    if rep not in ("bcast",):
+        try:
+            _prime(d, prime)
+        except Exception:
+            prime = "none"
+
     def chk(name, make, m_ref, C_ref):
         try:
             q = make()
@@ -270,8 +321,10 @@ def _arith(case, ctx, g):
         except Exception as e:
             ctx.fail(name, f"{name} raised {type(e).__name__}: {str(e)[:140]}", "raise", exc=type(e).__name__, rep=rep, op=name)
             return
-        ctx.close(name, qm, m_ref, "direct", cls=name + ":mean", rep=rep, op=name)
-        ctx.close(name, qc, C_ref, "direct", cls=name + ":cov", rep=rep, op=name)
+        ok = ctx.close(name, qm, m_ref, "direct", cls=name + ":mean", rep=rep, op=name)
+        ok = ctx.close(name, qc, C_ref, "direct", cls=name + ":cov", rep=rep, op=name) and ok
+        if ok and rep not in ("bcast",):
+            _observables(ctx, q, m_ref, C_ref, name, rep=rep, op=name, primed=prime)
 
     chk("add_scalar", lambda: d + c, mean + c, C)
     chk("radd_zero", lambda: 0 + d, mean, C)
@@ -347,7 +400,17 @@ def _index(case, ctx, g):
         if not bool((Bs == Bs[:, :1]).all()):
             raise Reject("index mixes batch elements inside one event")
         ref = torch.stack([Cb[Bs[r, 0]][Ps[r]][:, Ps[r]] for r in range(Bs.shape[0])], 0).reshape(*Mref.shape[:-1], k, k)
-    ctx.close("index_covariance", got_cov, ref, "direct", cls="index:cov", kinds=kinds)
+    if ctx.close("index_covariance", got_cov, ref, "direct", cls="index:cov", kinds=kinds) and case["seed"] % 3 == 0:
+        # a second pass with the parent primed (cached factorisations) before it is indexed
+        d2 = MVN(mean, make_cov(case["rep"], util.gen(case["seed"]), b, N)[0])
+        how = ["scale_tril", "log_prob_chol", "rsample"][(case["seed"] // 3) % 3]
+        try:
+            _prime(d2, how)
+            sub2 = d2[idx_arg]
+        except Exception:
+            sub2 = None
+        if sub2 is not None:
+            _observables(ctx, sub2, Mref, ref, "index", kinds=kinds, primed=how, rep=case["rep"])
     ctx.cell(cell, nontrivial=Psel.numel() < max(nb, 1) * N or N == 1)
 
 
